@@ -6,6 +6,9 @@
                              Blake2b-256 it compared with the implementation's hash
      CBuild wr wd lvo res    ScriptData::build_for on a decoded witness set: None, or the
                              independently derived preimage (same oracle)
+   Datums are KeepRaw values: (raw bytes held, [(raw, value) of each element]); raw = [] for values
+   built in memory (KeepRaw::from, deref_mut / clear_raw); elements are omitted ([]) when the outer
+   raw bytes are held (they are not looked at then).
    [case_ok] recomputes bytes / preimage with the model. *)
 From PV Require Import Lib.Base Cbor.Item Cbor.Enc Cbor.Dec Cbor.Api C07.Model C08.Model.
 Open Scope Z_scope.
@@ -13,10 +16,10 @@ Open Scope Z_scope.
 Inductive case : Type :=
 | CViews (m : lviews) (bytes : list Z)
 | CRedeemers (r : redeemers) (bytes : list Z)
-| CHash (r : option redeemers) (d : option (list Z)) (m : option lviews) (pre : list Z)
-| CBuild (wr : option redeemers) (wd : option (list Z)) (lvo : option lviews) (res : option (list Z)).
+| CHash (r : option redeemers) (d : option kdatums) (m : option lviews) (pre : list Z)
+| CBuild (wr : option redeemers) (wd : option kdatums) (lvo : option lviews) (res : option (list Z)).
 
-Definition model_build (wr : option redeemers) (wd : option (list Z)) (lvo : option lviews) : option (list Z) :=
+Definition model_build (wr : option redeemers) (wd : option kdatums) (lvo : option lviews) : option (list Z) :=
   match build_for wr wd lvo with Some sd => Some (script_data_preimage sd) | None => None end.
 
 Definition case_out (c : case) : option (list Z) :=
